@@ -20,6 +20,7 @@
 import PyGqlModel.Heap
 import PyGqlModel.HeapExt
 import PyGqlModel.Generated.HeapCfg
+import PyGqlModel.Props.C14_config
 
 set_option linter.unusedSimpArgs false
 set_option linter.unusedVariables false
